@@ -5,7 +5,8 @@ from capi import Lib
 from vlib import Oracle, build_lib, hx, md5
 
 THEOREMS = ["C01_factorisation_decodes", "C01_fast_generic_roundtrip", "C01_fast_extState_roundtrip", "C01_fastReset_history", "C01_initStream_ctx_ok", "C01_compress_then_decompress_safe", "C01_hc_mid_history", "C01_hc_mid_fresh_state", "C01_hc_mid_parser",
-            "C01_hc_chain_history", "C01_hc_chain_fresh_state", "C01_hc_chain_parser", "C01_hc_chain_search"]
+            "C01_hc_chain_history", "C01_hc_chain_fresh_state", "C01_hc_chain_parser", "C01_hc_chain_search",
+            "C01_hc_opt_history", "C01_hc_opt_parser", "C01_hc_opt_search"]
 CORRESPONDENCE = [cc.CHAIN_CORR, cc.CHAIN_SEARCH_CORR,
                   "Model.HcMidApi (LZ4MID_compress + one-shot HC entry points at levels 1-2, LZ4_compress_HC_destSize) == the real functions over call histories on one LZ4_streamHC_t (return value, consumed, bytes, both hash tables, end index, dirty flag after every call)",
                   "Model.FastApi.compress_fast_extState == LZ4_compress_default/_fast/_fast_extState (return value, bytes, context fields, hash table)",
@@ -16,7 +17,7 @@ RULE = ("inputs from seeded structured generators (random, runs, periodic, text,
         "{default, fast, fast_extState(junk state), HC, HC_extStateHC(junk state), HC fastReset (+favorDecSpeed)} x acceleration/level x capacity {bound, bound-1, n, small}; "
         "non-trivial = the compressed block contains at least one match sequence; distinct = distinct (input, entry point, parameter, capacity)")
 TRUSTED = ["hand-written model Model/Fast.v + Model/FastApi.v of LZ4_compress_generic_validated and the one-shot entry points, tied by exact output/context comparison",
-           "HC: LZ4MID (levels 1-2) and the hash-chain parser (levels 3-9) are modelled (Model/HcMid*.v, Model/HcChain*.v, tied by exact output/table comparison); the optimal parser (levels 10-12), HC streaming and dictCtx are checked by the direct oracle only (independent decoder extracted from the Coq block specification)"]
+           "HC: LZ4MID (levels 1-2) and the hash-chain parser (levels 3-9) and the optimal parser (levels 10-12) are modelled (Model/HcMid*.v, Model/HcChain*.v, Model/HcOpt*.v, tied by exact output/table comparison); HC streaming and dictCtx are checked by the direct oracle only (independent decoder extracted from the Coq block specification)"]
 ASSUMPTIONS = ["64-bit little-endian target (byPtr table mode and big-endian hashing not modelled)"]
 
 def build(tier):
